@@ -126,6 +126,24 @@ def module_int_constant(tree: ast.Module, name: str):
     return top[0].value.value
 
 
+def _module_import_plain(tree, name):
+    """`import <name>` once at module level and the name bound nowhere else in the module"""
+    n_imp = sum(1 for n in tree.body if isinstance(n, ast.Import) for a in n.names if a.name == name and a.asname is None)
+    others = 0
+    for n in ast.walk(tree):
+        if isinstance(n, ast.Name) and n.id == name and isinstance(n.ctx, (ast.Store, ast.Del)):
+            others += 1
+        elif isinstance(n, (ast.FunctionDef, ast.ClassDef)) and n.name == name:
+            others += 1
+        elif isinstance(n, ast.arg) and n.arg == name:
+            others += 1
+        elif isinstance(n, ast.ImportFrom):
+            others += sum(1 for a in n.names if (a.asname or a.name) == name)
+        elif isinstance(n, ast.Import):
+            others += sum(1 for a in n.names if a.asname == name or (a.name == name and n not in tree.body))
+    return n_imp == 1 and others == 0
+
+
 def module_import_ok(tree: ast.Module, mod: str, name: str):
     """`from <mod> import <name>` at top level and `name` bound nowhere else in the module"""
     found = False
@@ -623,6 +641,13 @@ class MethodTr:
             if m is None:
                 raise Unsupported(node, 'self.%s is not a translated method (translated before its caller)' % f.attr)
             return self.call_pure(m, node.args, node, node.keywords)
+        if ast.unparse(f) == 'operator.index' and len(node.args) == 1 and not node.keywords \
+                and _module_import_plain(self.tree, 'operator'):
+            # `operator.index(x)` of a statically-Int `x` is `x` (rule K1's companion)
+            a = self.expr(node.args[0])
+            if a.typ != INT:
+                raise Unsupported(node, 'operator.index of a %s' % a.typ)
+            return a
         raise Unsupported(node, 'call %s' % ast.unparse(f))
 
     # ---- statements
@@ -860,7 +885,32 @@ class MethodTr:
             return
         raise Unsupported(a, 'exception argument %s' % ast.unparse(a))
 
+    def _int_kind_dispatch(self, st: ast.Try):
+        """rule K1 (kind dispatch decided by the declared parameter type): `try: a, b, c = x.start, x.stop, x.step` /
+        `except AttributeError: H` / `else: E` with `x` a variable of static type Int IS `H`: an int has none of the
+        attributes `start` / `stop` / `step`, the first attribute read raises `AttributeError` before anything is bound,
+        `E` does not run.  The slice kind of the argument is outside the tie (the spec declares the parameter `Int`)."""
+        if st.finalbody or len(st.handlers) != 1 or len(st.body) != 1 or not isinstance(st.body[0], ast.Assign):
+            return None
+        h = st.handlers[0]
+        if h.name is not None or not isinstance(h.type, ast.Name) or h.type.id != 'AttributeError':
+            return None
+        v = st.body[0].value
+        reads = v.elts if isinstance(v, ast.Tuple) else [v]
+        if not reads:
+            return None
+        for r in reads:
+            if not (isinstance(r, ast.Attribute) and isinstance(r.value, ast.Name) and r.attr in ('start', 'stop', 'step')
+                    and r.value.id in self.vars and self.vars[r.value.id][1] == INT):
+                return None
+        if 'K1:int-kind-dispatch' not in self.rules:
+            self.rules.append('K1:int-kind-dispatch')
+        return self.block(h.body)
+
     def try_stmt(self, st: ast.Try):
+        k1 = self._int_kind_dispatch(st)
+        if k1 is not None:
+            return k1
         if st.finalbody or st.orelse or len(st.handlers) != 1:
             raise Unsupported(st, 'try with finally / else / several handlers')
         h = st.handlers[0]
@@ -1561,6 +1611,9 @@ REJECTS = [
     ('for over a list attribute with a single name as the target', 'for d in self.dead_indices:\n            start = start + 1', {}),
     ('for over a list attribute that another method rebinds', 'for a, b in self.scratch:\n            start = start + 1', {'scratch': 'List Val'}),
     ('assignment to a variable of a cell loop', 'for a, b in self.dead_indices:\n            a = start', {}),
+    ('kind dispatch on a variable that is not statically an int', 'try:\n            a = stop.start\n        except AttributeError:\n            a = 1', {}),
+    ('kind dispatch on an attribute that ints have', 'try:\n            a = start.real\n        except AttributeError:\n            a = 1', {}),
+    ('operator.index of a value that is not statically an int', 'a = operator.index(stop)', {}),
     ('two dynamic values ordered', 'a = self.dead_indices[0]\n        b = self.dead_indices[1]\n        if a < b:\n            return', {}),
     ('equality of a dynamic value and an int', 'a = self.dead_indices[0]\n        if a == start:\n            return', {}),
     ('true division outside the declared comparison', 'x = start / _COMPACTION_FACTOR', {}),
